@@ -22,7 +22,7 @@ ALLOWED = {
     "spdx": set(),  # plus the click.File("w") bound to --output (checked separately)
     "annotate": {("reuse._annotate.add_header_to_file", "open-w", "<p0>")},
     "convert-dep5": {("reuse.cli.convert_dep5.convert_dep5", "write_text", "<p0>.project.root / 'REUSE.toml'"),
-                     ("reuse.cli.convert_dep5.convert_dep5", "unlink", "<p0>.project.root / '.reuse/dep5'")},
+                     ("reuse.cli.convert_dep5.convert_dep5", "unlink", "<p0>.project.root / '.reuse' / 'dep5'")},
     "download": {("reuse.download.put_license_in_file", "mkdir", "<p1>.parent"),
                  ("reuse.download.put_license_in_file", "shutil.copyfile", "<p1>"),
                  ("reuse.download.put_license_in_file", "touch", "<p1>"),
@@ -62,7 +62,8 @@ def canon_target(repo: Repo, f: str, text: str) -> str:
                 return n.args[0]  # FILE.license sibling of the named file
             return n
 
-    out = ast.unparse(T().visit(node))
+    from ..rules import path_norm
+    out = path_norm(ast.unparse(T().visit(node)))   # one spelling for joinpath / "/" chains / .absolute()
     return re.sub(r"__p(\d+)__", r"<p\1>", out)
 
 
@@ -164,6 +165,9 @@ def rule_reach(ck: Check, repo: Repo, cg: CallGraph) -> None:
             if found:
                 r.violation(q, f"new command {name} has file-system effects", f"{found[0][:3]}: no documented effect set", repo.loc(fn))
             continue
+        # writing a whole file is one kind of effect whether it is spelled open(…, "w") + write or Path.write_text / write_bytes
+        WRITE = {"write_text": "open-w", "write_bytes": "open-w"}
+        allowed = allowed | {(f_, WRITE.get(k_, k_), t_) for f_, k_, t_ in allowed} | {(f_, "write_text", t_) for f_, k_, t_ in allowed if k_ == "open-w"}
         for f, k, t, node in found:
             if (f, k, t) not in allowed and not lifted_ok(repo, cg, parent, f, k, t, allowed):
                 chain = " -> ".join(x.split(".")[-1] for x in cg.chain(parent, f))
@@ -236,14 +240,37 @@ def rule_subprocess(ck: Check, repo: Repo, cg: CallGraph) -> None:
                 if isinstance(st, ast.Assign) and any(ast.unparse(t) == "command" for t in st.targets) and isinstance(st.value, ast.List):
                     cmd = st.value
             argv = [ast.unparse(e) if not isinstance(e, ast.Constant) else e.value for e in cmd.elts] if cmd else None
-            r.instance(f"argv:{f}", {"function": f, "argv": argv})
+            inline = c.args[0] if c.args and isinstance(c.args[0], ast.List) else None
+            # a shared runner `execute_command([str(cls.EXE), *args], …)` with `args` a parameter: the argv of every CALL of that
+            # runner (literal lists at the call sites) is what is judged
+            variants = []
+            runner_list = cmd or inline
+            if runner_list is not None and any(isinstance(e, ast.Starred) and isinstance(e.value, ast.Name)
+                                               and e.value.id in [a.arg for a in fn.args.args] for e in runner_list.elts):
+                star = next(e.value.id for e in runner_list.elts if isinstance(e, ast.Starred))
+                pidx = [a.arg for a in fn.args.args].index(star)
+                head = [ast.unparse(e) if not isinstance(e, ast.Constant) else e.value for e in runner_list.elts if not isinstance(e, ast.Starred)]
+                for f2, fn2 in repo.functions.items():
+                    for c2 in find_calls(fn2, lambda cc, name: name.split(".")[-1] == fn.name):
+                        a2 = next((k.value for k in c2.keywords if k.arg == star), None)
+                        if a2 is None:
+                            pos = pidx - (1 if fn.args.args and fn.args.args[0].arg in ("self", "cls") else 0)
+                            a2 = c2.args[pos] if len(c2.args) > pos else None
+                        if isinstance(a2, ast.List) and all(isinstance(e, ast.Constant) for e in a2.elts):
+                            variants.append((f2.split(".")[-2], head + [e.value for e in a2.elts]))
+                        else:
+                            variants.append((f2.split(".")[-2], None))
+            r.instance(f"argv:{f}", {"function": f, "argv": argv, "call_site_variants": [v for _, v in variants]})
             ok = False
-            if argv and argv[0] in ("str(self.EXE)", "str(cls.EXE)") and all(isinstance(a, str) for a in argv):
+            if variants:
+                ok = all(v is not None and v[0] in ("str(self.EXE)", "str(cls.EXE)")
+                         and any(v[1:][: len(qy)] == qy for qy in READ_ONLY_QUERIES.get(k, [])) for k, v in variants)
+            elif argv and argv[0] in ("str(self.EXE)", "str(cls.EXE)") and all(isinstance(a, str) for a in argv):
                 rest = argv[1:]
                 for qy in READ_ONLY_QUERIES.get(cls, []):
                     if rest[: len(qy)] == qy:
                         ok = True
-            if ast.unparse(c.args[0]) != "command":
+            if not variants and ast.unparse(c.args[0]) != "command":
                 ok = False
             if not ok:
                 r.violation(f, "VCS command is not a whitelisted read-only query", f"argv {argv}", repo.loc(c))
@@ -262,23 +289,68 @@ def rule_provenance(ck: Check, repo: Repo) -> None:
     if not ok_paths:
         r.violation(q, "annotated paths", "the loop must range over all_paths(paths, recursive, project)", repo.loc(an))
     ap = repo.func("reuse.cli.annotate.all_paths")
-    rets = [n for n in ast.walk(ap) if isinstance(n, ast.Return)]
-    rt = ast.unparse(rets[-1].value) if rets else ""
-    r.instance("all_paths-return", {"returns": rt})
-    if rt != "[_determine_license_path(path) for path in result if path.is_file()]":
-        r.violation("reuse.cli.annotate.all_paths", "returned paths", f"{rt}; directories must be filtered out and .license siblings"
-                    " substituted", repo.loc(ap))
+    # every return hands out `[_determine_license_path(p) for p in S if p.is_file()]`: directories filtered out, .license siblings
+    # substituted - S being the named paths when not recursive, the accumulated result otherwise (however the branches are laid out)
+    from ..rules import deep_text as _dt
+    rets = [n for n in ast.walk(ap) if isinstance(n, ast.Return) and n.value is not None]
+    shapes = []
+    for n in rets:
+        v = n.value
+        if isinstance(v, ast.Name):
+            vals = [st.value for st in ast.walk(ap) if isinstance(st, ast.Assign) and any(isinstance(t, ast.Name) and t.id == v.id for t in st.targets)]
+            v = vals[-1] if len(vals) == 1 else v
+        ok_shape = isinstance(v, ast.ListComp) and len(v.generators) == 1 and isinstance(v.generators[0].target, ast.Name) \
+            and ast.unparse(v.elt) == f"_determine_license_path({v.generators[0].target.id})" \
+            and [ast.unparse(i) for i in v.generators[0].ifs] == [f"{v.generators[0].target.id}.is_file()"]
+        src_set = _dt(ap, v.generators[0].iter) if ok_shape else None
+        shapes.append((ok_shape, src_set))
+    r.instance("all_paths-return", {"returns": [s_ for _, s_ in shapes]})
+    if not rets or not all(ok for ok, _ in shapes):
+        r.violation("reuse.cli.annotate.all_paths", "returned paths", f"{[ast.unparse(n.value)[:90] for n in rets]}; directories must be filtered out and"
+                    " .license siblings substituted", repo.loc(ap))
     from . import c03
     c03.all_paths_rules(r, repo, ck)  # children = covered files (walk from the root) that lie BELOW the directory (path prefix)
+    # non-recursive mode: exactly the named paths - some return (or the value bound on the non-recursive branch) ranges over
+    # set(paths) / paths and nothing else
+    nonrec = [s_ for ok, s_ in shapes if ok and s_ in ("set(paths)", "paths", "list(paths)")]
     s2 = re.sub(r"\s+", " ", ast.unparse(ap))
-    if "else: result = set(paths)" not in s2:
+    if not nonrec and "else: result = set(paths)" not in s2 and "result = set(paths)" not in s2:
         r.violation("reuse.cli.annotate.all_paths", "non-recursive mode", "must be exactly the named paths", repo.loc(ap))
-    # loop body: the only rebinding of `path` is to its .license sibling
+    # loop body: the file handed to add_header_to_file is the loop's path or its .license sibling, nothing else (whatever the
+    # local that carries it is called)
     loop = [n for n in an.body if isinstance(n, ast.For)]
-    rebinds = [ast.unparse(st.value) for l in loop for st in ast.walk(l)
-               if isinstance(st, ast.Assign) and any(ast.unparse(t) == "path" for t in st.targets)]
-    r.instance("path-rebinding", {"rebinds": rebinds})
-    if rebinds != ["Path(new_path)"] or "new_path = _determine_license_suffix_path(path)" not in src:
+    targets: set[str] = set()
+
+    def values_of(e: ast.AST, lp: ast.For, depth: int = 0) -> set[str]:
+        if depth > 4:
+            return {ast.unparse(e)}
+        if isinstance(e, ast.Call) and ast.unparse(e.func) == "Path" and len(e.args) == 1:
+            return values_of(e.args[0], lp, depth + 1)
+        if isinstance(e, ast.Name):
+            if isinstance(lp.target, ast.Name) and e.id == lp.target.id:
+                own = {"<loop path>"}
+            else:
+                own = set()
+            defs = [st.value for st in ast.walk(lp) if isinstance(st, ast.Assign) and any(isinstance(t, ast.Name) and t.id == e.id for t in st.targets)]
+            out = set(own)
+            for d in defs:
+                if isinstance(d, ast.Name) and d.id == e.id:
+                    continue
+                out |= values_of(d, lp, depth + 1)
+            return out or {e.id}
+        return {ast.unparse(e)}
+
+    for lp in loop:
+        for c in ast.walk(lp):
+            if isinstance(c, ast.Call) and ast.unparse(c.func) == "add_header_to_file":
+                a = next((k.value for k in c.keywords if k.arg == "path"), c.args[0] if c.args else None)
+                if a is not None:
+                    targets |= values_of(a, lp)
+    lv = loop[0].target.id if loop and isinstance(loop[0].target, ast.Name) else "path"
+    allowed = {"<loop path>", f"_determine_license_suffix_path({lv})", lv}
+    rebinds = sorted(targets)
+    r.instance("path-rebinding", {"header_targets": rebinds})
+    if not targets or not targets <= allowed or f"_determine_license_suffix_path({lv})" not in targets:
         r.violation(q, "path rebinding in the annotate loop", f"{rebinds}", repo.loc(an))
     ah = repo.func("reuse._annotate.add_header_to_file")
     rb = [ast.unparse(st.value) for st in ast.walk(ah) if isinstance(st, ast.Assign) and any(ast.unparse(t) == "path" for t in st.targets)]
